@@ -5,17 +5,28 @@ from . import mechsim, tlc
 
 
 class TracedMech:
-    def __init__(self, scn, up=()):
+    def __init__(self, scn, up=(), plan=()):
         self.scn = scn
+        self.plan = [dict(x) for x in plan]
         self.up0 = sorted(up)
-        self.w = mechsim.MechWorld(scn, initial_up=up)
+        self.w = mechsim.MechWorld(scn, initial_up=up, plan=plan)
+        self.summary = []  # per finished lifecycle: what race control got, fault, node observations
         self.init = self.w.project()
         self.events = []
         self.livelock = False
 
+    def snapshot(self):
+        w = self.w
+        return {"scn": w.scn, "box": w.rc_inbox(), "fault": w.fault, "nd": [dict(x) for x in w.nd]}
+
     def do(self, dec):
+        if dec[0] == "rc" and dec[1] == "restart":
+            self.summary.append(self.snapshot())
         ev, a, b = self.w.step(dec)
-        self.events.append({"ev": ev, "a": a, "b": b, "st": self.w.project()})
+        e = {"ev": ev, "a": a, "b": b, "st": self.w.project()}
+        if ev == "RcRestart":
+            e["scn"] = self.w.scn  # the configuration of the lifecycle that begins
+        self.events.append(e)
         return ev, a, b
 
     def answered(self):
@@ -72,11 +83,15 @@ class TracedMech:
             elif joins and rnd.random() < 0.3:
                 self.do(rnd.choice(joins))
             else:
-                self.do(rnd.choice(prog))
+                restart = [d for d in prog if d == ("rc", "restart")]
+                if restart and rnd.random() < 0.85:
+                    self.do(restart[0])  # reuse the mechanic rather than tearing it down
+                else:
+                    self.do(rnd.choice(prog))
         return followed, skipped
 
     def trace(self, tid):
-        return {"id": tid, "scn": self.scn, "init": self.init, "events": self.events}
+        return {"id": tid, "scn": self.scn, "plan": self.plan, "init": self.init, "events": self.events}
 
     def close(self):
         self.w.close()
